@@ -327,7 +327,7 @@ def fam_split(thorough=False):
         # storages with start level # end level, and take periods across intervals: conformance of the split model only
         a = [slack(T, 'n1', pr1, lo=-3, hi=3), F.storage(T, 'n1', size=2, cin=1, cout=1, start=0, end=1)]
         out.append(F.make_cfg(ids(), T, a, split=sp, refines=False, interval=iv, coupling='storage_start_ne_end'))
-        for sense, (s, e) in itertools.product(('min', 'max'), [(0, T), (1, T + 2), (-1, 3)]):
+        for sense, (s, e) in itertools.product(('min', 'max'), [(0, T), (1, T + 2), (-1, 3), (size, T + 1)]):   # last: later intervals only
             a = [F.contract(T, 'n1', 0, 2, pr2 if sense == 'min' else [1] * T, takes=[dict(s=s, e=e, vol=3, sense=sense)], force_contract=True),
                  slack(T, 'n1', [2, 3, 2, 3, 2, 3][:T], lo=-4, hi=0)]
             out.append(F.make_cfg(ids(), T, a, split=sp, refines=False, interval=iv, coupling='takes'))
